@@ -22,10 +22,16 @@ for m in sorted(glob.glob(os.path.join(base, 'seeded', '*', 'meta.json'))):
         fv = meta['checks'][p].get('first_violation') or ''
         mm = re.search(r'"kind": "([a-z_]+)"', fv)
         kind = mm.group(1) if mm else ''
+    if 'superseded' in meta:
+        rows.append((meta['name'], meta['breaks_property'], '(superseded by /repo %s: no longer breaks its demo)' % meta['superseded'].get('repo_head', ''), '', '', what))
+        continue
     rows.append((meta['name'], meta['breaks_property'], ', '.join(det) or '-', kind, ', '.join(missed), what))
 print('| change | breaks | detected by (quick) | as | not detected by | what it is |')
 print('|---|---|---|---|---|---|')
 for r in rows:
     print('| %s | %s | %s | %s | %s | %s |' % r)
 print()
-print('%d changes; %d detected by the quick check of the property they break' % (len(rows), sum(1 for r in rows if r[1] in r[2].split(', '))))
+live = [r for r in rows if not r[2].startswith('(superseded')]
+print('%d changes (%d superseded by later fix: commits); of the %d live ones %d are detected by the quick check of the property they break, %d more by another property\'s check' % (
+    len(rows), len(rows) - len(live), len(live), sum(1 for r in live if r[1] in r[2].split(', ')),
+    sum(1 for r in live if r[1] not in r[2].split(', ') and r[2] != '-')))
